@@ -189,6 +189,31 @@ def run(ctx):
             er = g.succ(dn[0], "1")
             ok = ok and bool(er) and all(x.startswith("RET(const:") and x != "RET(const:0)" for x in er)
         ctx.ob("R3", "status-returned", ok, "find_main must return the accumulated status on success and a non-zero constant when parsing failed; events %s" % g.fmt(), fn=fm, how="event graph")
+    # a starting point is examined by the walk alone (which applies the follow mode and turns a dangling link into an
+    # entry): no raw status call on it in the functions that handle starting points, and no way out of process_dir that
+    # does not go through the walk
+    from . import c13 as _c13
+    pd = prog.fns.get(C.PROCESS_DIR)
+    n_fn = 0
+    for f in [prog.fns.get(C.PROCESS_DIR), prog.fns.get(C.DO_FIND), prog.fns.get(C.PARSE_ARGS)]:
+        if f is None:
+            continue
+        n_fn += 1
+        for b, t in f.calls():
+            rn = _c13.raw_name(t)
+            if rn is None:
+                continue
+            ok = False
+            ctx.ob("R3", "starting-point-examined-by-the-walk:%s@%s" % (prim.short(rn), prim.short(f.path)), ok,
+                   "%s calls %s (%s) itself: what a starting point is — also one that is a dangling symbolic link, or unreadable — is for the walk to find out with the follow mode applied; a status call of its own decides differently for links "
+                   "(`find -L dangling` must visit the link, not report it missing)" % (f.path, rn, _c13.RAW[rn]), fn=f, where=prim.site(f, b), how="who-may-call")
+    ctx.floor("R3", "starting-point functions scanned for raw status calls", n_fn, 3)
+    if pd is not None:
+        its = [b for b, t in pd.calls() if t.j.get("callee_name") == "into_iter" and "walkdir::WalkDir" in (t.j.get("callee_inst") or "")]
+        rets = pd.return_blocks()
+        ok = len(its) == 1 and all(pd.dominates(its[0], r) for r in rets)
+        ctx.ob("R3", "no-way-out-before-the-walk", ok, "process_dir returns from blocks %s; every return must come after the walk was started (a starting point is never given up on before the walker has seen it)" % [prim.site(pd, r) for r in rets if not (its and pd.dominates(its[0], r))],
+               fn=pd, how="dominators")
     # ---- R4 -files0-from ------------------------------------------------------------------------------------------
     pf = ctx.fn("R4", M + "parse_files0_args")
     if pf is not None:
